@@ -30,8 +30,9 @@ CFG = dict(
               "C19_http_delivery_correct", "C19_http_at_most_once", "C19_http_announce_once", "C19_http_post_step",
               "C19_http_no_crash", "C19_http_idle", "C19_http_blocked_read", "C19_http_parked_request",
               "C19_http_blocked_write", "C19_http_cleaner_settled", "C19_http_end_to_end",
-              "C19_http_accepts_every_envelope", "C19_http_never_400_on_envelope"],
-    imports=["Base.Bytes", "Model.WireFormat", "Model.Transports", "Check.C19c"],
+              "C19_http_accepts_every_envelope", "C19_http_never_400_on_envelope",
+              "C19_http_200_delivered", "C19_http_write_nil", "C19_http_write_nil_read", "C19_http_write_order"],
+    imports=["Base.Bytes", "Model.WireFormat", "Model.Transports", "Model.HttpLink", "Check.C19c"],
     case_type="c19case", find_bad_from="find_bad_from",
     rigs=[dict(test="TestC19Wire", timeout_quick=300, timeout_thorough=1200),
           dict(test="TestC19Chan", timeout_quick=300, timeout_thorough=1200),
